@@ -17,6 +17,21 @@ OBJ = {'x': {'a': 1}, 'y': {}, 'n': None}
 ARR2 = {'x': [1, 0], 'y': [True, False], 'n': [1.0, 0.0]}      # equal as Python lists, different as JSON
 
 
+import datetime as _dt
+# temporal values nested inside array cells (a join 'array' aggregate over a datetime column produces such cells)
+ARR3 = {'x': [_dt.datetime(2020, 1, 2, 3, 4, 5), 'a'], 'y': [_dt.date(2020, 1, 2)], 'n': [{'t': _dt.datetime(2020, 1, 2, 23, 0, 0)}]}
+
+
+def _iso(o):
+    if isinstance(o, dict):
+        return {k: _iso(v) for k, v in o.items()}
+    if isinstance(o, list):
+        return [_iso(v) for v in o]
+    if isinstance(o, _dt.date):
+        return o.isoformat()
+    return o
+
+
 import decimal
 NUMKEY = {'k1': decimal.Decimal('1.5'), 'k2': decimal.Decimal('2.5')}
 
@@ -31,6 +46,8 @@ def mkrow(k, v, cols, phase=None):
         r['arr'] = copy.deepcopy(ARR[v])
     if 'arr2' in cols:
         r['arr'] = copy.deepcopy(ARR2[v])
+    if 'arr3' in cols:
+        r['arr'] = copy.deepcopy(ARR3[v])
     if 'obj' in cols:
         r['obj'] = copy.deepcopy(OBJ[v])
     return r
@@ -66,7 +83,7 @@ def stored(r):
         out['k'] = float(out['k'])          # SQLite holds numbers as REAL
     for f in ('arr', 'obj'):
         if f in out and out[f] is not None:
-            out[f] = json.dumps(out[f])
+            out[f] = json.dumps(_iso(out[f]))
     return out
 
 
@@ -99,7 +116,7 @@ def model_apply(table, mode, batch, pk):
 def do_dump(dbpath, cfg, mode, batch, phase=None):
     cols = cfg['cols']
     fields = [('k', 'number' if 'numkey' in cols else 'string'), ('v', 'integer' if phase == 0 else 'string')] + \
-        ([('arr', 'array')] if ('arr' in cols or 'arr2' in cols) else []) + ([('obj', 'object')] if 'obj' in cols else [])
+        ([('arr', 'array')] if ('arr' in cols or 'arr2' in cols or 'arr3' in cols) else []) + ([('obj', 'object')] if 'obj' in cols else [])
     rows = [mkrow(k, v, cols, phase) for k, v in batch]
     st = mkstate([('r', fields, rows)] + ([('r2', fields, copy.deepcopy(rows))] if (cfg.get('two') or cfg.get('unmapped')) else []))
     if cfg['pk']:
@@ -278,7 +295,7 @@ def prebuilt_history(args):
         flows, table, label = [], None, 'config %s, dumpers built up front, history %s' % (cj(cfg), ' ; '.join('%s%s' % (m, BATCHES[b]) for m, b in hist))
         for mode, bi in hist:
             cols = cfg['cols']
-            fields = [('k', 'string'), ('v', 'string')] + ([('arr', 'array')] if ('arr' in cols or 'arr2' in cols) else []) + ([('obj', 'object')] if 'obj' in cols else [])
+            fields = [('k', 'string'), ('v', 'string')] + ([('arr', 'array')] if ('arr' in cols or 'arr2' in cols or 'arr3' in cols) else []) + ([('obj', 'object')] if 'obj' in cols else [])
             st = mkstate([('r', fields, [mkrow(k, v, cols) for k, v in BATCHES[bi]])])
             tbl = {'resource-name': 'r', 'mode': mode}
             if mode == 'update':
@@ -383,6 +400,8 @@ def configs(tier):
         out.append({'pk': pk, 'batch_size': 1000, 'bloom': True, 'cols': [], 'schema_change': True, 'modes': ['rewrite']})
     out.append({'pk': False, 'batch_size': 1000, 'bloom': True, 'cols': [], 'unmapped': True})
     out.append({'pk': False, 'batch_size': 1000, 'bloom': True, 'cols': ['arr2']})
+    out.append({'pk': False, 'batch_size': 1000, 'bloom': True, 'cols': ['arr3']})
+    out.append({'pk': True, 'batch_size': 1, 'bloom': False, 'cols': ['arr3']})
     out.append({'pk': True, 'batch_size': 1000, 'bloom': True, 'cols': [], 'keys_none': True})
     out.append({'pk': False, 'batch_size': 1, 'bloom': False, 'cols': ['arr', 'obj'], 'keys_always': True})
     # one step writing two tables with the same column names
